@@ -2,6 +2,7 @@
 from .. import tables as T
 from ..rules import influence as R1
 from ..rules import lenguard as R4
+from ..rules import everyiter as R1D
 from ..rules import rng as RNG
 from ..engine import short
 from ..flow import OUTCOME
@@ -40,6 +41,8 @@ def run(rep, ctx, tier):
         if n < 1:
             # no zip: the proof list may be paired with the claims by position (bounds-checked indexing)
             n = R4.run_positional(rep, ctx, a, "R4a")
+        # the verdicts of the per-point checks are accumulated, not overwritten by the last one
+        R1D.run_last_value(rep, ctx, a, "R1L")
         if n < 1:
             rep.add("R4a", "%s:floor" % key, False,
                     "neither a zip of the proof list against the claims nor a positional read of it found in %s (floor 1): the rule would pass vacuously" % key,
